@@ -97,7 +97,14 @@ impl AdtVersion {
         let has_mcin = chunks.contains_key(&ChunkId::MCIN);
         let is_split_root = has_mcnk && !has_mcin;
 
-        if chunks.contains_key(&ChunkId::MTXP) {
+        // MoP markers: MTXP (texture parameters) or any blend-mesh chunk (MBMH/MBBB/MBNV/MBMI were
+        // introduced with MoP 5.x; a tile may carry a blend mesh without MTXP)
+        if chunks.contains_key(&ChunkId::MTXP)
+            || chunks.contains_key(&ChunkId::MBMH)
+            || chunks.contains_key(&ChunkId::MBBB)
+            || chunks.contains_key(&ChunkId::MBNV)
+            || chunks.contains_key(&ChunkId::MBMI)
+        {
             Self::MoP
         } else if chunks.contains_key(&ChunkId::MAMP) || is_split_root {
             // Cataclysm: Either has MAMP or is split root file
